@@ -100,7 +100,7 @@ RENDER = [('unix', None, None), ('dos', None, None), ('unix', 'unix', None),
           ('dos', 'dos', 'utf-32'), ('unix', None, 'utf-32'),
           ('unix', None, 'latin-1'), ('unix', 'unix', 'utf-16-le'),
           ('dos', None, 'utf-32-be')]
-KINDS = ['text-unset', 'text', 'binary', 'empty', 'absent']
+KINDS = ['text-unset', 'text', 'binary', 'empty', 'absent', 'undecodable']
 PRESTATS = [None, {'special': 123},
             {'insertions': 5, 'deletions': 7, 'lines changed': 12,
              'special': 1}]
@@ -123,6 +123,14 @@ def file_attrs(vi, ri, kind, pre, other):
         return attrs, (None, None, False)
     if kind == 'empty':
         attrs['diff'] = b''
+        return attrs, (None, None, False)
+    if kind == 'undecodable':
+        # bytes that are not text in the DECLARED encoding (a latin-1 diff
+        # labelled utf-8): this one
+        # file cannot be analysed -- every other file still is
+        attrs['diff'] = b'@@ -1 +1 @@\n-caf\xe9\n+\xff\xfe\xfd\n'
+        attrs['diff_encoding'] = 'utf-8'
+        attrs.pop('diff_line_endings', None)
         return attrs, (None, None, False)
     attrs['diff'] = data
     if le_opt:
